@@ -190,6 +190,11 @@ class Case:
             return rep[k]
         if t[0] == "int":
             return ("int", t[1], "usize")
+        if t[0] == "min" and len(t) == 3:
+            try:
+                return self.norm(t[1]) if self.val(t[1]) <= self.val(t[2]) else self.norm(t[2])
+            except KeyError:
+                pass
         out = tuple(self.norm(x) if isinstance(x, tuple) else x for x in t)
         if out[0] == "bin":
             if out[1] in ("Sub", "SatSub") and out[2] == out[3]:
@@ -330,6 +335,11 @@ def enumerate_cases(atoms, nonneg=True, extra_consts=(), variant_domain=None, co
                 ok = True
                 for con in constraints:
                     try:
+                        if callable(con):
+                            if not con(c):
+                                ok = False
+                                break
+                            continue
                         if not c.holds(con):
                             ok = False
                             break
@@ -355,6 +365,28 @@ def _consistent(keys, vals):
             return False
         seen[k] = v
     return True
+
+
+def sub_consistent(t):
+    """order facts of t = a - b (no underflow): t==0 <=> a==b ; t==a <=> b==0 ; b>0 => t<a ; t<=a"""
+    a, b = t[2], t[3]
+    zero = ("int", 0, "usize")
+
+    def f(case):
+        try:
+            vt, va, vb, v0 = case.val(t), case.val(a), case.val(b), case.val(zero)
+        except KeyError:
+            return True
+        if t[1] == "SatSub" and vb > va:
+            return vt == v0
+        if (vt == v0) != (va == vb):
+            return False
+        if (vt == va) != (vb == v0):
+            return False
+        if vt > va:
+            return False
+        return True
+    return f
 
 
 class Row:
@@ -405,10 +437,12 @@ def compare(paths, rows, nonneg=True, extra_consts=(), variant_domain=None, cons
     ps = [p for p in paths if not (ignore_unreachable and p.kind == "unreachable")]
     pconds = [[norm_atom(c) for c in p.conds] for p in ps]
     atoms = [a for cs in pconds for a in cs] + [g for r in rows for g in r.guards]
+    atoms += [norm_atom(c) for c in constraints if not callable(c)]
     mism = []
     n = 0
     decided = 0
-    for case in enumerate_cases(atoms, nonneg, extra_consts, variant_domain, [norm_atom(c) for c in constraints]):
+    for case in enumerate_cases(atoms, nonneg, extra_consts, variant_domain,
+                                [c if callable(c) else norm_atom(c) for c in constraints]):
         n += 1
         live_rows = [r for r in rows if all(case.holds(g) for g in r.guards)]
         live_paths = [p for p, cs in zip(ps, pconds) if all(case.holds(c) for c in cs)]
